@@ -3,6 +3,7 @@ import BSEModel.ManipOps
 import BSEModel.Validator
 import BSEGen.Api
 import BSEProofs.Lemmas.PruneValid
+import BSEProofs.Lemmas.SegValid
 /-! # C08 — every basis handed out is well-formed
 
 The closing `prune_basis` of the `get_basis` option pipeline establishes, for *any* shell list it is
@@ -203,6 +204,32 @@ theorem uncontractGeneral_valid [DecidableEq ν] (val : ν → Rat) (shells out 
   obtain ⟨s, hs, hp⟩ := pruneShells_members val _ out h s' hs'
   exact uncontractGeneral_shell_valid val shells
     (fun sh hsh => ⟨(validateShell_iff val sh).1 (hv sh hsh).1, (hv sh hsh).2⟩) s s' hs hp
+
+/-- **`uncontract_segmented` (followed by the prune `get_basis` runs at once) of a valid element is a valid element**:
+one shell per primitive with a unit coefficient per momentum, duplicates removed -/
+theorem uncontractSegmented_valid [DecidableEq ν] (val : ν → Rat) (one : ν) (h1 : val one = 1) (shells out : List (Shell ν))
+    (hv : ∀ sh ∈ shells, validateShell val sh = none)
+    (h : pruneShells val (uncontractSegmented one shells) = .ok out) :
+    validateElement val (some out) none false = none := by
+  rw [validateElement_iff]
+  refine ⟨?_, by simp⟩
+  intro ss hss
+  cases hss
+  refine ⟨?_, pruneShells_nodup val _ out h⟩
+  intro s' hs'
+  obtain ⟨s, hs, hp⟩ := pruneShells_members val _ out h s' hs'
+  obtain ⟨sh, hsh, e, he, rfl⟩ := uncontractSegmented_members one shells s hs
+  have v := uncontractSegmented_shell_valid val one h1 sh ((validateShell_iff val sh).1 (hv sh hsh)) e he
+  have hk : 0 < sh.am.length := List.length_pos_iff.2 ((validateShell_iff val sh).1 (hv sh hsh)).am_nonempty
+  have hne : (List.replicate sh.am.length [one]) ≠ [] := by
+    intro h0
+    have := congrArg List.length h0
+    rw [List.length_replicate, List.length_nil] at this
+    omega
+  have hid := pruneShell_id_of_valid val _ v hne
+  rw [hid] at hp
+  cases hp
+  exact v
 
 /-- operations that can leave duplicate exponents, dead primitives or duplicate shells behind -/
 def needsRepair : Op → Bool
